@@ -8,7 +8,7 @@ PROP = dict(
              "(x/auction msg server + BeginBlocker), generation 2 surplus / generic-external / inverted debt (x/auctionsV2 msg server + BeginBlocker)}, "
              "2-5 bidders (rich, poor, unfunded), bid factor in {0, 1e-6, 0.01, 0.05, 0.1, 1/3, 1}, 8-30 ops: bids that are barely improving (exact threshold), "
              "threshold-1, equal, lower, zero, negative, unaffordable, wrong denom, wrong expected-user-token; block hooks at small steps and exactly on / one second "
-             "past bid_end and end (restart without bids, close with bids), closes that fail (collector without the lot, tokenmint supply too small); "
+             "past bid_end and end (restart without bids, close with bids), the generation 2 surplus and debt auctions are STARTED by the real liquidationsV2 CheckStatsForSurplusAndDebt (surplus: collector.GetAmountFromCollector moves the lot from a collector holding lot + {0, 7, 5000} + {0, 1, 2} lots to the generation-1 auction module account, net fees = threshold + lot + {0, 1, 5000}); closes that fail (generation 2 surplus: the lot source - the generation-1 auction module account, fix 67f334a - drained of the whole lot or of one coin before the close; tokenmint supply too small); "
              "limit cases (2 of 8, plus 8 corpus cases that always run first: the witnesses of the repaired defects C11-F1 amount, C11-F1 denom, C11-F2; "
              "the thorough-tier history in which a bid is cut down to the left-over collateral below the penalty; a record above the debt of an under-collateralised "
              "auction with a sufficient and with an insufficient app reserve (C10-F5, repaired: charged what was bid); the cut-down history with an insufficient reserve next to another depositor; two records below the debt in one closure and a record above the debt followed by a second record (C10-F6, repaired)): "
@@ -32,11 +32,12 @@ PROP = dict(
                      "bid denom <> lot denom (enforced by the collector: CollectorAssetID != SecondaryAssetID)", "0 <= closing/withdrawal fee <= 1 for the limit-bid custody / own-deposit theorems",
                      "an automatic fill's Dutch settlement disburses no more of the module's debt coins than the filled records are charged (C10's concern; hypothesis fill_env of c11_limit_custody, "
                      "checked on every observed block through the custody predicate)",
-                     "one auction per module account is attributed at a time: custody is measured relative to the module balance when the auction started"],
+                     "one auction per module account is attributed at a time: custody is measured relative to the module balance when the auction started",
+                     "generation 2 surplus close as repaired by 67f334a: the lot is taken from the generation-1 auction module account (model account AUC1, observed and diffed after every step next to the auction module, collector, external initiator and tokenmint accounts); the collector net-fee record (40dff76 for the debt close) is not projected by C11: SetNetFeeCollectedData can only fail on a negative amount and the standing payment is >= 0"],
     )
 
 MANIFEST = dict(
-    level_text="Ledger invariant of the English-auction state machine proved for all five coded variants and every finite history of bids and block hooks: module custody attributable to the auction = standing payment; an accepted bid improves by at least ceil(factor*standing); the outbid bidder is whole again in the same step; after the close the last accepted bidder paid the standing payment and got the lot and every other bidder's net change is 0. Limit bids (on the code repaired by fixes/C11-F1 and fixes/C11-F2): recorded total = sum of deposits, no negative deposit, every deposit in its market's debt denom for EVERY finite history of deposit / cancel / withdraw messages and automatic fills (no hypothesis); custody covers the deposits for every history of messages by bidder accounts and automatic fills whose Dutch settlement disburses at most what the records are charged; an accepted withdraw / cancel in any reachable state pays the sender at most its own deposit minus the fee, in the deposited denom, and nobody else. Models tied to /repo by a differential run through the real msg servers and BeginBlockers (including the automatic fill) on every check.",
+    level_text="Ledger invariant of the English-auction state machine proved for all five coded variants and every finite history of bids and block hooks: module custody attributable to the auction = standing payment; an accepted bid improves by at least ceil(factor*standing); the outbid bidder is whole again in the same step; after the close the last accepted bidder paid the standing payment and got the lot and every other bidder's net change is 0; the generation-2 surplus close (fix 67f334a) leaves the generation-1 auction module account, where the start put the lot, out of exactly the lot and the collector untouched. Limit bids (on the code repaired by fixes/C11-F1 and fixes/C11-F2): recorded total = sum of deposits, no negative deposit, every deposit in its market's debt denom for EVERY finite history of deposit / cancel / withdraw messages and automatic fills (no hypothesis); custody covers the deposits for every history of messages by bidder accounts and automatic fills whose Dutch settlement disburses at most what the records are charged; an accepted withdraw / cancel in any reachable state pays the sender at most its own deposit minus the fee, in the deposited denom, and nobody else. Models tied to /repo by a differential run through the real msg servers and BeginBlockers (including the automatic fill) on every check.",
     design_ref="DESIGN.md section 4 C11",
     level_note="Trusted: Coq kernel, extraction (ExtrOcamlBasic), OCaml runner, Go harness. No axioms (Closed under the global context). The two defects found on the original tree (C11-F1 withdraw without amount / denom check, C11-F2 stale BidValue after an exact automatic fill) are repaired by the patches under fixes/; the model follows the repaired code, no known-finding class is left, the witnesses stay in the harness corpus and as Examples.",
     technique="Coq proof (state-machine invariants by induction over op histories) + model/implementation correspondence run",
